@@ -52,6 +52,18 @@ T = {
  "C14-D": ("C14","a failed instruction is refunded on the meter, including the limit failure itself","exhaust the instruction limit, get the error, then submit more programs without raising the limit"),
  "C15-C": ("C15","under recording the Resolve instruction of a late word is put back after each execution","recording on; a late word called once; the name re-defined in a later source; the caller run again"),
  "C15-D": ("C15","under recording a store of a value equal to the current one is skipped","recording on; a variable re-assigned a value that differs only in tags (`x ^hex ! x`)"),
+ "C01-C": ("C01","a definition that starts where the previous definition's body ended reuses that definition's jump-over","a definition as the last item of an if/else branch or case default, directly followed (after then/endcase) by another definition, with control taking the other path"),
+ "C01-D": ("C01","`var` re-declaration reuses the existing heap cell","declare a global, compile a word that uses it, declare the same name again, call the earlier word"),
+ "C06-C": ("C06","close-bitstr range-checks the restored offset against the inner input that is still current","nested open/close where the stashed outer offset lies outside the inner input's bit range"),
+ "C06-D": ("C06","Bitstr::substr returns a detached empty value for empty ranges while the readers use its end as the new cursor","a zero-width successful read (0 bits, 0 uint, || magic) at a non-zero offset"),
+ "C08-C": ("C08","abandon_failed_run clears the return/loop/builder stacks instead of truncating to the context's bases","compile a loop, step into it with next(), eval a source that fails at run time, compile `I`, run (panic slicing the loop stack)"),
+ "C08-D": ("C08","append fast path taken when the tail is a whole number of bytes but not byte-aligned (slice().unwrap())","byte-aligned whole-byte head appended with a tail of byte-multiple length at a non-byte start"),
+ "C12-C": ("C12","Ord for Cell orders reals with total_cmp while equality uses ==","real keys 0.0 and -0.0 (equal? but distinct in the total order)"),
+ "C12-D": ("C12","join writes the separator when the output buffer is non-empty instead of counting items","join on a vector whose leading item(s) render as empty text"),
+ "C13-C": ("C13","with-tags / ^{ ^} / binary reads wrap an already tagged cell again; value() peels one level","tagging a value that already carries tags (e.g. a number read from binary input) and then using it"),
+ "C13-D": ("C13","current_byteorder matches the raw cell, so a tagged zero in `big?` means big-endian","`u8 ! big?` (a tagged 0 stored into the byte-order variable) followed by a multi-byte read or pack"),
+ "C17-C": ("C17","token_filename compares source text instead of identity (re-introduces the defect repaired in eba4a94)","the same source text submitted more than once on one interpreter, error in the later copy"),
+ "C17-D": ("C17","the build-error path overwrites a run-time location recorded while a meta block ran","a meta block whose failure happens inside a called definition or a loop body"),
 }
 res = collections.defaultdict(dict)
 p=os.path.join(ROOT,'RESULTS.tsv')
